@@ -617,6 +617,13 @@ def execute(case, *, record=False, grace=GRACE, engine=None) -> Report:  # noqa:
         rep.records.append(rec)
         if got.ok:
             later("retort_" + kind + "er", kind, tk, got.value, -1)
+    # the facade calls themselves (retort.load / retort.dump), alternating between the touched types: whatever the facade
+    # remembers between calls (a "last used" shortcut ...) must serve the type it is asked for
+    for _ in range(2):
+        for kind, tk in touched:
+            hint = f.hints[tk]
+            facade = (lambda d, h=hint: retort.load(d, h)) if kind == "load" else (lambda d, h=hint: retort.dump(d, h))
+            later("facade_" + kind, kind, tk, facade, -1)
 
     for key in [k for k in linecache.cache if k.startswith("<adaptix generated")]:
         del linecache.cache[key]  # adaptix never frees these entries; keep long campaigns flat in memory
@@ -654,6 +661,9 @@ def _confirm_hang(case) -> dict:
 
 def check_case(ctx: runner.Ctx, case):  # noqa: C901, PLR0912
     global _HANGS  # noqa: PLW0603
+    if case.get("cold"):
+        from props.cold12 import check_cold_case  # noqa: PLC0415
+        return check_cold_case(ctx, case)
     if _HANGS >= MAX_HANGS_PER_PROCESS:
         ctx.count("skipped_process_poisoned_by_hang")
         return
@@ -975,6 +985,12 @@ def _phase(ctx, name, t0=[None]):  # noqa: B006
 def explore(ctx: runner.Ctx):  # noqa: C901
     _phase(ctx, "start")
     _selfcheck(ctx)
+    if os.environ.get("C12_ONLY", "") in ("", "cold"):
+        # first use *in the process*: every schedule in a fresh interpreter (see props/cold12.py); quick: about half of
+        # the lines that only a cold process executes, thorough: all of them
+        from props.cold12 import explore_cold  # noqa: PLC0415
+        explore_cold(ctx, ctx.budget(112, 4000))
+        _phase(ctx, "cold")
     idx = 0
     only = os.environ.get("C12_ONLY", "")  # debugging aid: run one phase only (single | double | pct)
     for name, prio, debug, strict, mode in (_sweeps(ctx.tier) if only in ("", "single") else []):
